@@ -157,8 +157,16 @@ func newSourceRaw(kind string, r image.Rectangle, subMode int, rng *core.RNG) im
 	case "RGBA":
 		m := image.NewRGBA(pr)
 		fillBytes(rng, m.Pix)
-		// keep most pixels validly premultiplied, leave some arbitrary
+		// keep most pixels validly premultiplied, leave some arbitrary (among them fully
+		// transparent pixels that still carry colour bytes)
 		for i := 0; i+3 < len(m.Pix); i += 4 {
+			if rng.Intn(16) == 0 {
+				m.Pix[i+3] = 0
+				if m.Pix[i] == 0 {
+					m.Pix[i] = 0x40
+				}
+				continue
+			}
 			if rng.Intn(4) != 0 {
 				a := m.Pix[i+3]
 				for k := 0; k < 3; k++ {
@@ -344,6 +352,7 @@ func snapshot(img image.Image) image.Image {
 	case *image.Paletted:
 		c := *m
 		c.Pix = append([]uint8(nil), m.Pix...)
+		c.Palette = append(color.Palette(nil), m.Palette...)
 		return &c
 	case *image.Gray:
 		c := *m
